@@ -348,16 +348,32 @@ func GenPlan(prop string, seed uint64) *Plan {
 	}
 	if pr.inject > 0 {
 		ni := g.rng(1, pr.inject)
-		for i := 0; i < ni; i++ {
-			from := g.rng(1, p.N)
-			if len(p.Byz) > 0 {
-				from = p.Byz[g.intn(len(p.Byz))].ID
-			}
+		if len(p.Byz) == 0 && f > 0 && budget > 0 {
+			// the sender of arbitrary messages is a Byzantine replica (within the budget of f)
+			p.Byz = append(p.Byz, ByzNd{ID: g.pickNotCrashed(p), Kind: "script", Rate: 0})
+		}
+		for i := 0; i < ni && len(p.Byz) > 0; i++ {
+			from := p.Byz[g.intn(len(p.Byz))].ID
 			p.Inject = append(p.Inject, Inject{AtMs: g.intn(p.UntilMs), From: from, To: g.rng(1, p.N),
 				Kind: pick(g, "propose", "propose", "vote", "newview", "timeout", "timeout", "fetch"), Gen: g.u64()})
 		}
 	}
 	return p
+}
+
+func (g *gen) pickNotCrashed(p *Plan) int {
+	for {
+		id := g.rng(1, p.N)
+		ok := true
+		for _, f := range p.Faults {
+			if f.Kind == "crash" && f.Node == id {
+				ok = false
+			}
+		}
+		if ok {
+			return id
+		}
+	}
 }
 
 func (g *gen) pickHonest(p *Plan) int {
